@@ -1,5 +1,6 @@
 import Anndb.Proofs.PartitionRefine
 import Anndb.Model.ListPQ
+import Anndb.Props.C03
 import Anndb.Generated
 /-!
 # C04 — Replicas applying the same log hold identical contents; snapshot equals replay
@@ -108,6 +109,35 @@ is one: it is serialised by the goroutine that applies the entries, between two 
 labelled with that goroutine's last applied index (regenerated from storage/raft/group.go). -/
 theorem snapshot_is_a_log_prefix :
     Generated.raftSnapshotInline = true ∧ Generated.raftSnapshotAtLastApplied = true := by decide
+
+/-! ### the label of a snapshot
+
+`trySnapshot` stores the in-memory state and cuts the log after `label` entries. With the label the
+code uses — the apply loop's own last applied index — that is exactly the `compact` step of the
+recovery model (C03), because what is applied is a prefix of what is durable. With a label that
+runs ahead of the applied state (raft's commit index, seeded change C04-C) the entries in between
+are in neither the snapshot nor the log any more: a restart never applies them. -/
+open Anndb.Recovery in
+def compactLabelled (s : St) (label : Nat) : St :=
+  { s with snap := s.applied, log := s.durable.drop label }
+
+open Anndb.Recovery in
+theorem label_at_applied_is_compact {s : St} (r : Reach true s) (hu : s.up = true) :
+    compactLabelled s s.applied.length = compact s := by
+  obtain ⟨t, ht⟩ := Recovery.applied_is_durable_prefix r hu
+  unfold compactLabelled compact
+  have : s.durable.take s.applied.length = s.applied := by
+    rw [← ht]; simp
+  rw [this]
+
+open Anndb.Recovery in
+/-- entries 1 and 2 are durable, only 1 is applied; a snapshot labelled 2 drops entry 2 for good -/
+theorem label_ahead_loses_entries :
+    let s := applyAll true 1 (save (propose (propose init 1) 2))
+    s.durable = [1, 2] ∧ s.applied = [1] ∧
+    (compactLabelled s 2).durable = [1] ∧
+    (applyAll true 5 (restart (crash (compactLabelled s 2)))).applied = [1] ∧
+    (applyAll true 5 (restart (crash (compactLabelled s 1)))).applied = [1, 2] := by decide
 
 /-! ### Non-vacuity: two genuinely different replica implementations -/
 
